@@ -2406,7 +2406,18 @@ impl<'bump, T: 'bump> IntoIter<'bump, T> {
     /// assert_eq!(into_iter.as_slice(), &['b', 'c']);
     /// ```
     pub fn as_slice(&self) -> &[T] {
-        unsafe { slice::from_raw_parts(self.ptr, self.len()) }
+        unsafe { slice::from_raw_parts(self.slice_ptr(), self.len()) }
+    }
+
+    // For zero-sized `T`, `ptr` and `end` only count elements (`next` moves
+    // `ptr` by one byte), so `ptr` need not be aligned for `T`. A slice of
+    // zero-sized values only needs a well-aligned, non-null pointer.
+    fn slice_ptr(&self) -> *const T {
+        if mem::size_of::<T>() == 0 {
+            NonNull::<T>::dangling().as_ptr()
+        } else {
+            self.ptr
+        }
     }
 
     /// Returns the remaining items of this iterator as a mutable slice.
@@ -2427,7 +2438,7 @@ impl<'bump, T: 'bump> IntoIter<'bump, T> {
     /// assert_eq!(into_iter.next().unwrap(), 'z');
     /// ```
     pub fn as_mut_slice(&mut self) -> &mut [T] {
-        unsafe { slice::from_raw_parts_mut(self.ptr as *mut T, self.len()) }
+        unsafe { slice::from_raw_parts_mut(self.slice_ptr() as *mut T, self.len()) }
     }
 }
 
